@@ -43,6 +43,7 @@ func vTakerSwap(swapIn, liquid bool, version uint8) *SwapData {
 		s.SwapInAgreement = &SwapInAgreementMessage{ProtocolVersion: version, SwapId: id, Pubkey: zzverif.HexStr("taker.pubkey", 33), Premium: zzverif.I64("premium")}
 	} else {
 		s.Role = SWAPROLE_SENDER
+		s.InitiatorNodeId = vSelfNode // a swap-out taker asked for the swap itself
 		s.SwapOutRequest = &SwapOutRequestMessage{ProtocolVersion: version, SwapId: id, Asset: asset, Network: network,
 			Scid: zzverif.Str("scid"), Amount: zzverif.U64("amount"), Pubkey: zzverif.HexStr("taker.pubkey", 33), PremiumLimit: zzverif.I64("premiumlimit")}
 		s.SwapOutAgreement = &SwapOutAgreementMessage{ProtocolVersion: version, SwapId: id, Pubkey: zzverif.HexStr("maker.pubkey", 33),
@@ -65,6 +66,7 @@ func vMakerSwap(swapIn, liquid bool, version uint8, broadcasted bool) *SwapData 
 	}
 	if swapIn {
 		s.Role = SWAPROLE_SENDER
+		s.InitiatorNodeId = vSelfNode // a swap-in maker asked for the swap itself
 		s.SwapInRequest = &SwapInRequestMessage{ProtocolVersion: version, SwapId: id, Asset: asset, Network: network,
 			Scid: zzverif.Str("scid"), Amount: zzverif.U64("amount"), Pubkey: zzverif.HexStr("maker.pubkey", 33), PremiumLimit: zzverif.I64("premiumlimit")}
 		s.SwapInAgreement = &SwapInAgreementMessage{ProtocolVersion: version, SwapId: id, Pubkey: zzverif.HexStr("taker.pubkey", 33), Premium: zzverif.I64("premium")}
